@@ -33,6 +33,12 @@ def check(run, prog, tier):
         "Beyond the bound the combinatorial structure is not decided; the generators of the state list are not "
         "evaluated.")
     run.trusted_base = ["scipy.constants values", "1 D = 1e-21/c C m; lengths in Angstrom; energies in rad/fs"]
+    run.rule("C03-I", "build() recomputes the operators from the parameters held at the call: no stored result or "
+                      "'already built' short-cut that other setters do not invalidate", minimum=2)
+    from . import memorule
+    memorule.check(run, prog, "C03-I", ["quantarhei.builders.aggregate_base.AggregateBase",
+                                        "quantarhei.builders.aggregates.Aggregate"],
+                   "the Hamiltonian and dipole operator then belong to earlier energies, couplings or dipoles")
     run.rule("C03-A", "point-dipole interaction formula (TA)", minimum=2)
     run.rule("C03-B", "Coulomb constant in Debye/Angstrom/fs^-1 units (constant folding)", minimum=2)
     run.rule("C03-C", "coupling matrix is written symmetrically", minimum=2)
